@@ -131,10 +131,17 @@ Definition put_store (c : corr) (now : Q) (m : smsg) (eid : Z) : corr :=
   else c1.
 
 (* get(response), the part before the sweep *)
+(* a response answers a request of its own type; a generic_nack answers any request *)
+Definition answers (r : resp) (m : smsg) : bool :=
+  (rs_cmd r =? SmppCommand_GENERIC_NACK)
+  || match lookup (sm_cmd m) command_response_map with Some c => c =? rs_cmd r | None => false end.
+
 Definition get_pop (c : corr) (r : resp) : corr * option entry :=
   match dget (rs_seq r) (c_store c) with
   | None => (c, None)
   | Some e =>
+    if negb (answers r (e_msg e)) then (c, None)    (* a response of another type: the request stays outstanding *)
+    else
     let c1 := with_store c (ddel (rs_seq r) (c_store c)) in
     let m := e_msg e in
     let c2 :=
